@@ -143,7 +143,7 @@ class Prop:
                 alts = [a for a in g["alts"] if a[0] != "meta"]
                 for i in range(0, len(alts), CHUNK):
                     yield dict(kind="alts", univ=g["univ"], setup=g["setup"], alts=alts[i:i + CHUNK], label=g["label"] + "/typed")
-        nrand = 40 if quick else 700
+        nrand = 30 if quick else 700
         for i in range(nrand):
             n_ops = rng.randint(10, 30 if quick else 40)
             h = mut_c01.gen_history(rng, n_ops, malformed=(i % 4 == 3))
